@@ -111,7 +111,7 @@ class Machine:
 
     def __init__(self, mod):
         self.mod = mod
-        self.funcs = {o.sym_name.data: o for o in mod.ops if isinstance(o, func.FuncOp)}
+        self.funcs = {o.sym_name.data: o for o in mod.walk() if isinstance(o, func.FuncOp)}  # also of nested modules
         self.steps = 0  # executed operations / atomic actions (budget)
         self.now = 0  # simulated clock; jumps when a core blocks on a device (discrete-event)
         t = _TABLES.get(type(self))
